@@ -13,15 +13,17 @@ EXTENDS Props
 CONSTANTS MaxLines, Mode, MaxErrs
 Menu == JsonDeserialize("menu.json")
 
-VARIABLE vToks      \* history: the tokens delivered to the builder (a function of the input; adds no states)
-mvars == <<vLines, vLine, vPs, vToks>>
+VARIABLES vToks,    \* history: the tokens delivered to the builder (a function of the input; adds no states)
+          vEvents   \* history: the builder calls made for each of them
+mvars == <<vLines, vLine, vPs, vToks, vEvents>>
 
-Init == /\ vToks = <<>>
+Init == /\ vToks = <<>> /\ vEvents = <<>>
         /\ vLines \in { [j \in 1..Len(c) |-> Menu[c[j]]] : c \in UNION { [1..m -> 1..Len(Menu)] : m \in 0..MaxLines } }
         /\ vLine = 1
         /\ vPs = InitParse("en", 0, CapOf(Mode))
 Next == /\ GParseLine
         /\ vToks' = IF vPs'.count = vPs.count + 1 THEN Append(vToks, Delivered(FiredAt(vPs, vLines, vLine).tok, vLine, vPs.ms)) ELSE vToks
+        /\ vEvents' = IF vPs'.count = vPs.count + 1 THEN Append(vEvents, Table[vPs.st][FiredAt(vPs, vLines, vLine).hit].prods) ELSE vEvents
 Spec == Init /\ [][Next]_mvars
 
 MenuIndex(l) == CHOOSE k \in 1..Len(Menu) : Menu[k] = l
@@ -40,6 +42,7 @@ Acc == vPs.done /\ ~Rejected(vPs)
 SDoc == DocumentOf(vPs)
 SPk == Compile(SDoc, <<117>>, NidAfter(vPs))
 Inv_C01 == vPs.done => P_C01_Outcome(vPs.bs.errs, vPs.bs.cap)
+Inv_C02 == Acc => P_C02_Derivation(vToks, vEvents) /\ P_C02_TagOwner(SDoc, Index(SDoc))
 Inv_C03 == Acc => LET ix == Index(SDoc) IN P_C03_Once(vToks, SDoc, ix) /\ P_C03_Order(SDoc, ix) /\ P_C03_Text(vLines, SDoc, ix)
                                            /\ P_C03_Desc(vLines, vToks, SDoc, ix) /\ P_C03_Within(vLines, SDoc, ix)
 Inv_C04 == /\ (Acc => P_C04_ReadBack(vLines, SDoc, Index(SDoc)))
